@@ -215,6 +215,10 @@ func run(r *core.Run) {
 	if os.Getenv("VERIF_C14_ONLY") == "tokens" { // development aid: only the tokenizer slice
 		return
 	}
+	if os.Getenv("VERIF_C14_ONLY") == "censor" { // development aid: only the censor slice
+		runCensorMatch(r)
+		return
+	}
 	// 1. SQL
 	var sql [][]byte
 	for _, s := range sqlSeeds {
@@ -315,6 +319,9 @@ func run(r *core.Run) {
 			r.Check(out != core.Panic, "panic:"+op, op+" panics on tag-rich garbage")
 		}
 	}
+	// 5. the acra-censor pattern matcher: nil combinations of the pointer comparators against the model, and
+	// pattern × statement pairs through AcraCensor.HandleQuery (censor.go)
+	runCensorMatch(r)
 	// 6. generated client sessions through the real proxies: no proxy goroutine may panic
 	runProxySessions(r)
 }
